@@ -34,4 +34,30 @@ def firstDisagreement : List Obs → Option Nat
   | [] => none
   | a :: t => (t.findIdx? (fun b => !(b == a))).map (· + 1)
 
+/-! ## The caller's buffer (round 6)
+
+`convert_bytes` is handed a buffer the caller owns (a `bytearray` is parsed in place, a `memoryview` is copied).  The
+request of a compilation is the *content* of that buffer; a compilation that edits the buffer changes the request of every
+later compilation of "the same" buffer.  The clause: after the call the buffer holds what it held before. -/
+
+/-- One call with a caller-owned buffer: the buffer's content (size + SHA-256) right before and right after the call. -/
+structure BufObs where
+  sizeBefore : Nat
+  digestBefore : String
+  sizeAfter : Nat
+  digestAfter : String
+deriving Repr, DecidableEq
+
+/-- the input buffer is not modified -/
+def BufObs.kept (o : BufObs) : Prop := o.sizeBefore = o.sizeAfter ∧ o.digestBefore = o.digestAfter
+
+/-- The specification: no call modified the buffer it was handed. -/
+def InputKept (l : List BufObs) : Prop := ∀ o ∈ l, o.kept
+
+/-- Executable judge. -/
+def inputKept (l : List BufObs) : Bool := l.all fun o => o.sizeBefore == o.sizeAfter && o.digestBefore == o.digestAfter
+
+/-- Position of the first call that modified its buffer. -/
+def firstModified (l : List BufObs) : Option Nat := l.findIdx? fun o => !(o.sizeBefore == o.sizeAfter && o.digestBefore == o.digestAfter)
+
 end VelaVerif.Determinism
